@@ -155,7 +155,26 @@ fn run_scenario(sc: &Scenario, obs: &mut Obs, key: u64) -> Check {
 
 fn enum_oracle(e: &Enumerated, obs: &mut Obs) -> Check {
     let sc = scenario_of(e);
-    run_scenario(&sc, obs, crate::engine::hash_of(&format!("{e:?}")))
+    run_scenario(&sc, obs, crate::engine::hash_of(&format!("{e:?}")))?;
+    // strict probes: the conditional probe reads members through the optional lookup only; here
+    // `{{ n.a }}` is printed unconditionally after the program, so that the failing form of the
+    // lookup is held to the innermost binding too (an error when that binding has no member `a`,
+    // whatever an outer layer holds)
+    if !e.stmts.is_empty() {
+        for n in NAMES {
+            let mut site = 0;
+            let mut main = lower(&e.stmts, &mut site);
+            main.push(Node::Text("[".into()));
+            main.push(Node::Out { e: Expr::path(n, &["a"]), filters: vec![], t: Tr::PLAIN });
+            main.push(Node::Text("]".into()));
+            let strict = Scenario { main, partials: sc.partials.clone(), data: sc.data.clone() };
+            let (_, ran) = progs::differential(&strict, obs, "scope(strict probe)")?;
+            if ran {
+                obs.extra_evals += 1;
+            }
+        }
+    }
+    Ok(())
 }
 
 /// The engine must leave the very object it was given untouched: render with a long-lived
@@ -239,7 +258,7 @@ fn rand_oracle(sc: &Scenario, obs: &mut Obs) -> Check {
 }
 
 pub fn run(ctx: &Ctx) {
-    ctx.set_rule("E2: every program of <= 2 statements (thorough: <= 3; quick adds a strided slice of length 3) over names {x, y} from 90 statement forms (assign of a fresh value / of the value a loop or include argument currently shows, increment, decrement, include-with-argument, and capture / for / if holding nothing or one simple statement) x all 9 ways the caller binds each name (unbound / string / object with a member); the probe [{% if n.a %}obj:{{ n.a }}{% elsif n %}{{ n }}{% else %}~{% endif %}] for every name is inserted before and after every statement and at the start of every body, also inside the included partial; E1: random programs to depth 4 over {x, y, z} with loop variables named like data names, capture, counters, include of two partials. Oracle: reference interpreter; caller's Object deep-compared after the render. Non-trivial = some probe found the same name bound in >= 2 layers (measured by the reference interpreter, per layer pair); distinct by program.");
+    ctx.set_rule("E2: every program of <= 2 statements (thorough: <= 3; quick adds a strided slice of length 3) over names {x, y} from 90 statement forms (assign of a fresh value / of the value a loop or include argument currently shows, increment, decrement, include-with-argument, and capture / for / if holding nothing or one simple statement) x all 9 ways the caller binds each name (unbound / string / object with a member); the probe [{% if n.a %}obj:{{ n.a }}{% elsif n %}{{ n }}{% else %}~{% endif %}] for every name is inserted before and after every statement and at the start of every body, also inside the included partial; each program is run twice more with an unconditional {{ n.a }} appended (the failing lookup form must follow the innermost binding as well); E1: random programs to depth 4 over {x, y, z} with loop variables named like data names, capture, counters, include of two partials. Oracle: reference interpreter; caller's Object deep-compared after the render. Non-trivial = some probe found the same name bound in >= 2 layers (measured by the reference interpreter, per layer pair); distinct by program.");
     for len in 1..=2usize {
         ctx.exhaustive(&format!("programs_len{len}"), 9 * OPTIONS.pow(len as u32), move |i| seq_nth(i, len), enum_oracle);
     }
